@@ -19,6 +19,12 @@ CONSTANTS
   Exts = {"e1", "e2"}
   KeyChains = {"ethereum"}
   KeyVariants = {"good", "wrongkey"}
+  DepAmts = {40}
+  DepFees = {0, 2}
+  WithKeysAndPrices = FALSE
+  FeePaids = {1}
+  StakePowers = {0, 1, 2, 3}
+  WatchNames = {}
   KeepHist = FALSE
   TwoLevel = FALSE
   EmitScripts = FALSE
